@@ -33,6 +33,12 @@ func (a *AuditLogIngester) Ingest(ctx context.Context) error {
 }
 
 func (a *AuditLogIngester) Process(ctx context.Context, line string) error {
-	a.AuditLogChan <- line
-	return nil
+	// Do not block forever on a full channel: once the context is
+	// done nobody receives from it anymore.
+	select {
+	case <-ctx.Done():
+		return ctx.Err()
+	case a.AuditLogChan <- line:
+		return nil
+	}
 }
